@@ -67,12 +67,13 @@ Proof. induction l as [|a l IH]; [reflexivity|]. cbn. exact IH. Qed.
 
 Lemma check_pub_pending : forall c s p lag,
   pending (check_pub c s p lag) = pending s \/
-  (pending (check_pub c s p lag) = S (pending s) /\ exists pos pep, ch s = Sub pos pep).
+  (pending (check_pub c s p lag) = S (pending s) /\ c_pos c = true /\ exists pos pep, ch s = Sub pos pep).
 Proof.
   intros c s p lag. unfold check_pub.
   destruct (ch s) as [| |pos pep] eqn:Hch; [left; reflexivity|left; reflexivity|].
+  destruct (c_pos c) eqn:Hpos; cbn [negb];
   repeat match goal with |- context [if ?x then _ else _] => destruct x eqn:? end;
-    unf; cbn; try (left; reflexivity); right; (split; [reflexivity|eauto]).
+    unf; cbn; try (left; reflexivity); right; (split; [reflexivity|split; [reflexivity|eauto]]).
 Qed.
 
 Lemma check_pub_ch : forall c s p lag,
@@ -90,10 +91,14 @@ Qed.
 Lemma pub_offs_unsub_out : forall k, pub_offs [unsub_out_frame k] = [].
 Proof. destruct k; reflexivity. Qed.
 
-Lemma einv_step : forall c s l s', c_pos c = true -> SInv c s -> EInv c s -> step c s l = Some s' -> EInv c s'.
+Ltac nb H Hnb Hcw :=
+  unfold step, emit_push in H; rewrite ?Hnb in H; rewrite ?Hcw in H; cbn [app emits] in H; cbv iota in H.
+
+Lemma einv_step : forall c s l s', c_batch c = false -> SInv c s -> EInv c s -> step c s l = Some s' -> EInv c s'.
 Proof.
-  intros c s l s' Hpos IS IE H.
-  destruct l; unfold step in H; break_step H; inv_some H; boolfix.
+  intros c s l s' Hnb IS IE H.
+  assert (Hcw : cw s = []) by (apply (i_cw_nil c s IS); exact Hnb).
+  destruct l; nb H Hnb Hcw; break_step H; inv_some H; boolfix.
   all: destruct IE as [Euo Eup Enoch Efl Esub Epend Ecl Eend Eok].
   all: try match goal with E : pc _ = _ |- _ =>
          rewrite E in Eup, Efl, Esub, Epend, Ecl, Eend;
@@ -102,7 +107,7 @@ Proof.
   all: repeat match goal with |- context [if closed ?s then _ else _] => destruct (closed s) eqn:? end.
   all: try match goal with |- EInv _ (check_pub _ _ _ _) => idtac | _ =>
     constructor; unf; unfold with_log;
-    cbn [b_ep b_top b_items b_fresh g_log fl ps_entry ps_insub ps_locked ps_buf hub ch closed pc dl up pending cleanup g_pos log
+    cbn [b_ep b_top b_items b_fresh g_log fl ps_entry ps_insub ps_locked ps_buf hub ch closed pc dl up pending cleanup g_pos log cw
          finished in_flight sub_committed quiet] in * end.
   all: try (sc; fail).
   all: try (intros; exfalso; congruence).
@@ -153,20 +158,20 @@ Proof.
                   | match goal with Hu : up _ = UOut ?k1 |- _ => rewrite (Euo k1 Hu) in Hh; discriminate end ]).
   (* LCheck on a publication *)
   pose proof (check_pub_fields c s p lag) as F. cbv zeta in F.
-  destruct F as (F1 & F2 & F3 & F4 & F5 & F6 & F7 & F8 & F9 & F10 & F11 & F12 & F13 & F14 & F15).
+  destruct F as (F1 & F2 & F3 & F4 & F5 & F6 & F7 & F8 & F9 & F10 & F11 & F12 & F13 & F14 & F15 & F16).
   pose proof (check_pub_ch c s p lag) as Fch.
   constructor; rewrite ?F9, ?F10, ?F11, ?F12, ?F13, ?F14; try assumption.
   - intros Hc. destruct (ch s) eqn:E; try (destruct Fch as (? & ? & Fch); congruence); try congruence.
     apply Enoch. reflexivity.
   - intros Hf. specialize (Efl Hf). rewrite Efl in Fch. exact Fch.
   - intros pos' pep' Hc. destruct (ch s) eqn:E; try congruence. eapply Esub. reflexivity.
-  - intros Hp. destruct (check_pub_pending c s p lag) as [Ep|[Ep (pos0 & pep0 & Hs)]].
+  - intros Hp. destruct (check_pub_pending c s p lag) as [Ep|[Ep (Hpos & pos0 & pep0 & Hs)]].
     + apply Epend. congruence.
     + pose proof (Esub _ _ Hs) as Hcm.
       match goal with Hd : dl s = DPub _ _ PCheck |- _ =>
         assert (Hw : in_window (pc s) = false);
         [ destruct (in_window (pc s)) eqn:Ew; [|reflexivity]; exfalso;
-          pose proof (i_entry_pc c s IS Ew) as Hen;
+          pose proof (i_entry_pc c s IS Hpos Ew) as Hen;
           destruct (i_entry_dl c s IS Hen _ _ _ Hd) as [X|[X _]]; discriminate | ] end.
       destruct (pc s); try discriminate; reflexivity.
 Qed.
@@ -175,7 +180,7 @@ Qed.
 
 Record FInv (c : cfg) (s : st) : Prop := { f_s : SInv c s; f_e : EInv c s }.
 
-Lemma finv_run : forall c ls s s', c_pos c = true -> FInv c s -> run c s ls = Some s' -> FInv c s'.
+Lemma finv_run : forall c ls s s', c_batch c = false -> FInv c s -> run c s ls = Some s' -> FInv c s'.
 Proof.
   induction ls as [|l ls IH]; intros s s' Hp I H; cbn [run] in H.
   - inv_some H. exact I.
@@ -188,7 +193,7 @@ Qed.
 (* For every positioned subscription (patched or not) and every schedule: no positioned
    publication is written after the frame that ended the subscription. *)
 Theorem c01_no_pub_after_end : forall c ls s,
-  c_pos c = true -> run c init ls = Some s -> no_pub_after_end (log s) = true.
+  c_batch c = false -> run c init ls = Some s -> no_pub_after_end (log s) = true.
 Proof.
   intros c ls s Hp H.
   assert (I : FInv c s).
